@@ -116,6 +116,11 @@ def run(ck):
         "StoreEntry::adjustVary": "Vary marker object (no response body of the origin)",
         "Store::Controller::allowCollapsing": "collapsed_forwarding (off by default); the entry is re-keyed by haveParsedReplyHeaders"}, min_callers=2, kinds=("call", "ref"))
     ck.who_calls("P1.who-publishes", facts, "StoreEntry::cacheNegatively", {"HttpStateData::haveParsedReplyHeaders": "after reusableReply()==cacheNegatively"}, kinds=("call", "ref"))
+    ck.who_calls("P1.who-publishes", facts, "StoreEntry::setPublicKey", {
+        "StoreEntry::makePublic": "the gated wrapper (callers listed above)", "storeCreateEntry": "only with request flags.cachable (Q1)",
+        "MimeIcon::load": "squid's own icon objects (no origin response)"}, min_callers=2, kinds=("call", "ref"))
+    ck.who_calls("P1.who-publishes", facts, "StoreEntry::forcePublicKey", {
+        "StoreEntry::setPublicKey": "the only key installer", "StoreEntry::clearPublicKeyScope": "re-keys an entry that is already public"}, min_callers=2, kinds=("call", "ref"))
 
     # ------------------------------------------------------------------ Q: request no-store vetoes cachability
     ck.rule("Q1 UNREACH(HttpRequest::maybeCacheable, http/https, !flags.ignoreCc, cache_control->hasNoStore() -> return true); "
